@@ -226,7 +226,7 @@ pub struct ExecOpts {
 pub async fn run_async(plan: &PlanA, opts: &ExecOpts) -> RunResult {
     let mut res = RunResult { seed: plan.seed, world: "A".into(), shape: plan.shape.clone(), ..Default::default() };
     let ifaces = ifaces_of(&plan.lans);
-    let knobs = Knobs { yield_p: plan.yield_p, spurious_p: plan.spurious_p, eintr_p: plan.eintr_p, ..Default::default() };
+    let knobs = Knobs { yield_p: plan.yield_p, spurious_p: plan.spurious_p, eintr_p: plan.eintr_p, send_err_p: plan.send_err_p, ..Default::default() };
     let kernel = Kernel::new(plan.seed, ifaces.clone(), None, knobs, opts.trace);
     erbium_net::sim::install(Some(std::rc::Rc::new(KHandle(kernel.clone()))));
     vfs::with_disk(|d| {
@@ -586,6 +586,12 @@ pub async fn run_async(plan: &PlanA, opts: &ExecOpts) -> RunResult {
         let mut refused_frames = 0;
         for o in &outs {
             if let OutKind::Frame { ifidx, data } = &o.kind {
+                if o.injected {
+                    /* a failed system call: the reply is lost */
+                    *res.faults.entry("sendmsg_error".into()).or_insert(0) += 1;
+                    refused_frames += 1;
+                    continue;
+                }
                 if let Some(e) = o.errno {
                     /* a reply that does not fit the link MTU (long configured options on a
                      * small-MTU interface) is refused by the kernel; the statement of C12 does
